@@ -14,11 +14,19 @@ A GENUINE translation (no pinned source text) of
     is not None / m[k] / m.keys()` and the two comprehensions `{a: i for i, a in enumerate(e)}`,
     `{asyncio.ensure_future(a.__anext__()): a for a in e}` (+ `{t for t in e if t.done()}`);
   * the class `to_aiter` (methods reachable from `__anext__`, the `_anext` selector set in
-    `__init__`, the private `_StopIteration` exception) into `cstmt`.
+    `__init__`, the private `_StopIteration` exception) into `cstmt`; its only base must be
+    `AsyncIterator[T]`, `__aiter__` inherited or `return self`, no class-level statements, no
+    decorators, no other methods than `__repr__`/`__str__`;
+  * `aiterable`: must be `return to_aiter(<its parameter unchanged>, thread=<const>)`.
 
-Ignored (cosmetic): docstrings, comments, type annotations, `pass`, bare-name annotations,
-calls to logging / warnings / print used as statements, every function/class of the module
-other than the three above.
+Ignored (cosmetic), under the shared rule "an ignored statement contains no call other than a
+logging call (`logger.<level>(..)`, `logging.<level>(..)`, `getLogger(..).<level>(..)`,
+`warnings.warn(..)`) whose arguments are call-free, no walrus/await/yield, and mentions no tracked
+local, parameter or `self`": docstrings, comments, `pass`, `x: T` annotations, such logging calls,
+`logger = logging.getLogger(..)`.  `assert` is refused.  The rest of the module may not rebind,
+shadow or monkeypatch a translated definition or a name the translation relies on (`asyncio`,
+`set`, `next`, ... : `check_module`); `FIRST_COMPLETED`/`wait`/`ensure_future`/`to_thread` are
+accepted only as attributes of the module `asyncio` imported by plain `import asyncio`.
 
 Anything else in a tracked position raises `Unsupported` (= a broken tie obligation).
 """
@@ -71,7 +79,7 @@ def method_call(n, attr: str, nargs: int = 0):
 
 def anext_arming(n):
     """`asyncio.ensure_future(<a>.__anext__())` -> <a> else None"""
-    if isinstance(n, ast.Call) and dotted(n.func) in ('asyncio.ensure_future', 'ensure_future') \
+    if isinstance(n, ast.Call) and dotted(n.func) == 'asyncio.ensure_future' \
             and len(n.args) == 1 and not n.keywords:
         mc = method_call(n.args[0], '__anext__')
         if mc is not None:
@@ -93,29 +101,76 @@ def strip_doc(body):
     return body
 
 
-COSMETIC_CALL_ROOTS = {'logging', 'logger', 'log', 'warnings', 'print'}
+LOG_LEVELS = {'debug', 'info', 'warning', 'warn', 'error', 'exception', 'critical', 'log'}
+LOG_ROOTS = {'logging', 'logger', 'log'}
+COSMETIC_SEEN: list = []       # the ignored statements of the function being translated (checked afterwards for names)
 
 
-def is_cosmetic(st) -> bool:
+def call_free(n) -> bool:
+    for sub in ast.walk(n):
+        if isinstance(sub, (ast.Call, ast.NamedExpr, ast.Await, ast.Yield, ast.YieldFrom, ast.Lambda,
+                            ast.ListComp, ast.SetComp, ast.DictComp, ast.GeneratorExp)):
+            return False
+    return True
+
+
+def args_call_free(c: ast.Call) -> bool:
+    return all(call_free(a) for a in c.args) and all(call_free(k.value) for k in c.keywords)
+
+
+def is_get_logger(c) -> bool:
+    """`logging.getLogger(<call-free>)` / `getLogger(<call-free>)`"""
+    return isinstance(c, ast.Call) and dotted(c.func) in ('logging.getLogger', 'getLogger') and args_call_free(c)
+
+
+def is_log_call(c) -> bool:
+    """`logger.<level>(..)`, `logging.<level>(..)`, `[logging.]getLogger(..).<level>(..)`, `warnings.warn(..)`;
+    no argument contains a call, a walrus, an await or a yield"""
+    if not (isinstance(c, ast.Call) and isinstance(c.func, ast.Attribute) and args_call_free(c)):
+        return False
+    recv, attr = c.func.value, c.func.attr
+    if isinstance(recv, ast.Name) and recv.id == 'warnings' and attr == 'warn':
+        return True
+    if attr not in LOG_LEVELS:
+        return False
+    return (isinstance(recv, ast.Name) and recv.id in LOG_ROOTS) or is_get_logger(recv)
+
+
+def _is_cosmetic(st) -> bool:
     if isinstance(st, ast.Pass):
         return True
-    if isinstance(st, ast.AnnAssign) and st.value is None:
-        return True
+    if isinstance(st, ast.AnnAssign) and st.value is None and isinstance(st.target, ast.Name):
+        return True                                 # `x: T` (the annotation of a local is not evaluated)
     if isinstance(st, ast.Assign) and len(st.targets) == 1 and isinstance(st.targets[0], ast.Name) \
-            and st.targets[0].id in ('logger', 'log') and isinstance(st.value, ast.Call) \
-            and root_name(st.value.func) in ('logging', 'getLogger'):
+            and st.targets[0].id in ('logger', 'log') and is_get_logger(st.value):
         return True                                 # logger = logging.getLogger(...): a later tracked use of it is unbound
     if isinstance(st, ast.Expr):
         v = st.value
         if isinstance(v, ast.Constant):            # stray docstring / ellipsis
             return True
-        if isinstance(v, ast.Call):
-            if root_name(v.func) in COSMETIC_CALL_ROOTS:
-                for sub in ast.walk(v):
-                    if isinstance(sub, (ast.Await, ast.Yield, ast.YieldFrom, ast.NamedExpr)):
-                        return False
-                return True
+        return is_log_call(v)
     return False
+
+
+def is_cosmetic(st) -> bool:
+    """Ignored statements.  Shared rule: an ignored statement contains no call except a logging call whose
+    arguments are call-free, no walrus / await / yield, and (checked by `check_cosmetic_names` once the tracked
+    names are known) mentions no tracked local, parameter or `self`.  `assert` is never ignored."""
+    if _is_cosmetic(st):
+        COSMETIC_SEEN.append(st)
+        return True
+    return False
+
+
+def check_cosmetic_names(tracked: set[str]):
+    for st in COSMETIC_SEEN:
+        if isinstance(st, ast.AnnAssign):
+            continue
+        for sub in ast.walk(st):
+            if isinstance(sub, ast.Name) and sub.id in tracked and not (
+                    isinstance(st, ast.Assign) and sub is st.targets[0]):
+                fail(st, f'ignored statement mentions the tracked name `{sub.id}`')
+    COSMETIC_SEEN.clear()
 
 
 # --------------------------------------------------------------------------- expressions
@@ -234,7 +289,7 @@ class Gen:
                 if len(c.args) != 1:
                     fail(st, 'asyncio.wait with other than one positional argument')
                 kws = {k.arg: k.value for k in c.keywords}
-                if set(kws) != {'return_when'} or dotted(kws['return_when']) not in ('asyncio.FIRST_COMPLETED', 'FIRST_COMPLETED'):
+                if set(kws) != {'return_when'} or dotted(kws['return_when']) != 'asyncio.FIRST_COMPLETED':
                     fail(st, 'asyncio.wait without exactly return_when=asyncio.FIRST_COMPLETED')
                 return f'(SWait {self.target(tgt.elts[0])} {self.target(tgt.elts[1])} {self.expr(c.args[0])})'
             fail(st, 'await of something else than asyncio.wait')
@@ -366,7 +421,12 @@ def generator(tree, name: str, check_args) -> tuple[str, list[str]]:
             fail(sub, 'nested definition')
         if isinstance(sub, (ast.Global, ast.Nonlocal, ast.Return, ast.With, ast.AsyncWith, ast.AsyncFor, ast.YieldFrom)):
             fail(sub, 'construct not supported in a tracked generator')
+    COSMETIC_SEEN.clear()
     term = g.body(strip_doc(fn.body))
+    check_cosmetic_names(set(g.vars) - {'logger', 'log'})
+    for v in g.vars:
+        if v in RELIED_NAMES:
+            fail(fn, f'local variable `{v}` shadows a name the translation relies on')
     return term, g.vars
 
 
@@ -384,6 +444,104 @@ def agen_args(fn) -> list[str]:
     return [a.args[0].arg]
 
 
+# --------------------------------------------------------------------------- the module around the tracked definitions
+
+TRACKED_DEFS = {'to_aiter', 'merge_aiters', 'agen_with_wait', 'aiterable'}
+# names whose usual meaning the translation relies on
+RELIED_NAMES = {'asyncio', 'set', 'tuple', 'enumerate', 'next', 'iter', 'StopIteration', 'StopAsyncIteration',
+                'Exception', 'AsyncIterator', 'warnings', 'logging'}
+REFLECTION = {'setattr', 'delattr', 'globals', 'vars', 'locals', 'exec', 'eval', '__import__', 'importlib'}
+
+
+def check_module(tree):
+    """Nothing in the module may rebind, shadow or monkeypatch a translated definition or a name the translation
+    relies on (`asyncio`, `set`, `next`, ...): imports with other meanings, assignments, attribute stores,
+    `setattr`, `global`, duplicate definitions."""
+    guarded = TRACKED_DEFS | RELIED_NAMES
+    for node in ast.walk(tree):
+        if isinstance(node, ast.Import):
+            for a in node.names:
+                bound = a.asname or a.name.split('.')[0]
+                if bound in guarded and not (a.name in ('asyncio', 'warnings', 'logging') and a.asname in (None, a.name)):
+                    fail(node, f'import binds the guarded name `{bound}`')
+        elif isinstance(node, ast.ImportFrom):
+            for a in node.names:
+                bound = a.asname or a.name
+                if a.name == '*':
+                    fail(node, 'star import')
+                if bound in guarded and not (bound == 'AsyncIterator' and a.name == 'AsyncIterator'
+                                             and node.module in ('collections.abc', 'typing') and node.level == 0):
+                    fail(node, f'import binds the guarded name `{bound}`')
+        elif isinstance(node, (ast.FunctionDef, ast.AsyncFunctionDef, ast.ClassDef)):
+            if node.name in RELIED_NAMES:
+                fail(node, f'definition shadows `{node.name}`')
+            if node.name in TRACKED_DEFS and node not in tree.body:
+                fail(node, f'nested definition named `{node.name}`')
+        elif isinstance(node, ast.Name):
+            if isinstance(node.ctx, (ast.Store, ast.Del)) and node.id in guarded:
+                fail(node, f'`{node.id}` is rebound')
+            if node.id in REFLECTION:
+                fail(node, f'use of `{node.id}`')
+        elif isinstance(node, (ast.Attribute, ast.Subscript)):
+            if isinstance(node.ctx, (ast.Store, ast.Del)) and root_name(node) in guarded:
+                fail(node, 'store through a guarded name')
+        elif isinstance(node, (ast.Global, ast.Nonlocal)):
+            if set(node.names) & guarded:
+                fail(node, 'global/nonlocal of a guarded name')
+        elif isinstance(node, ast.arg):
+            if node.arg in guarded:
+                fail(node, f'parameter named `{node.arg}`')
+        elif isinstance(node, ast.ExceptHandler):
+            if node.name in guarded:
+                fail(node, f'`except ... as {node.name}`')
+        elif isinstance(node, ast.alias):
+            pass
+    for name in TRACKED_DEFS:
+        n = [x for x in tree.body if isinstance(x, (ast.FunctionDef, ast.AsyncFunctionDef, ast.ClassDef)) and x.name == name]
+        if len(n) != 1:
+            raise Unsupported(f'{SRC}: expected exactly one top-level definition of `{name}`, found {len(n)}')
+    # module-level statements: imports, definitions, docstrings and assignments of other names only
+    for st in tree.body:
+        if isinstance(st, (ast.Import, ast.ImportFrom, ast.FunctionDef, ast.AsyncFunctionDef, ast.ClassDef)):
+            continue
+        if isinstance(st, ast.Expr) and isinstance(st.value, ast.Constant):
+            continue
+        if isinstance(st, (ast.Assign, ast.AnnAssign)):
+            tg = st.targets if isinstance(st, ast.Assign) else [st.target]
+            if all(isinstance(t, ast.Name) for t in tg):
+                continue
+        fail(st, 'module-level statement not recognised')
+
+
+def aiterable(tree) -> bool:
+    """`def aiterable(iterable): [warnings.warn(<constants>)]; return to_aiter(iterable, thread=<bool>)`
+    -> the value of `thread` it passes"""
+    fn = [x for x in tree.body if isinstance(x, (ast.FunctionDef, ast.AsyncFunctionDef)) and x.name == 'aiterable'][0]
+    if not isinstance(fn, ast.FunctionDef) or fn.decorator_list:
+        fail(fn, 'aiterable must be a plain undecorated function')
+    a = fn.args
+    if len(a.args) != 1 or a.posonlyargs or a.kwonlyargs or a.vararg or a.kwarg or a.defaults:
+        fail(fn, 'aiterable must take exactly one parameter')
+    param = a.args[0].arg
+    COSMETIC_SEEN.clear()
+    real = [st for st in strip_doc(fn.body) if not is_cosmetic(st)]
+    check_cosmetic_names({param})
+    if len(real) != 1 or not isinstance(real[0], ast.Return):
+        fail(fn, 'aiterable: expected a single return besides the deprecation warning')
+    c = real[0].value
+    if not (isinstance(c, ast.Call) and is_name(c.func, 'to_aiter') and len(c.args) == 1 and is_name(c.args[0], param)):
+        fail(real[0], 'aiterable must return to_aiter(<its parameter, unchanged>, ...)')
+    kws = {k.arg: k.value for k in c.keywords}
+    if set(kws) - {'thread'}:
+        fail(real[0], 'aiterable passes unknown keywords')
+    if 'thread' not in kws:
+        return None
+    v = kws['thread']
+    if not (isinstance(v, ast.Constant) and isinstance(v.value, bool)):
+        fail(real[0], 'thread= must be a bool constant')
+    return v.value
+
+
 # --------------------------------------------------------------------------- to_aiter
 
 EXN = {'StopIteration': 'XStopIteration', 'StopAsyncIteration': 'XStopAsyncIteration'}
@@ -394,10 +552,23 @@ class Cls:
         self.cls = cls
         self.custom: set[str] = set()      # names of the private stop exception(s)
         self.methods = {n.name: n for n in cls.body if isinstance(n, (ast.FunctionDef, ast.AsyncFunctionDef))}
+        bases = [ast.unparse(b) for b in cls.bases]
+        if bases not in (['AsyncIterator[T]'], ['AsyncIterator']) or cls.keywords or cls.decorator_list:
+            fail(cls, f'class to_aiter must derive from AsyncIterator[T] only (bases {bases}): `async for` needs its __aiter__')
+        names = [n.name for n in cls.body if isinstance(n, (ast.FunctionDef, ast.AsyncFunctionDef))]
+        if len(names) != len(set(names)):
+            fail(cls, 'a method is defined twice')
+        for n in strip_doc(cls.body):
+            if isinstance(n, (ast.FunctionDef, ast.AsyncFunctionDef, ast.ClassDef)):
+                continue
+            if isinstance(n, ast.AnnAssign) and n.value is None and isinstance(n.target, ast.Name):
+                continue
+            fail(n, 'class-level statement (e.g. an attribute shared by all instances) not supported')
         for n in cls.body:
             if isinstance(n, ast.ClassDef):
                 bases = [dotted(b) for b in n.bases]
-                rest = [s for s in n.body if not is_cosmetic(s)]
+                rest = [s for s in n.body if not (isinstance(s, ast.Pass) or
+                                                  (isinstance(s, ast.Expr) and isinstance(s.value, ast.Constant)))]
                 if bases != ['Exception'] or rest or n.decorator_list or n.keywords:
                     fail(n, 'nested class other than a plain `class X(Exception)`')
                 self.custom.add(n.name)
@@ -471,6 +642,9 @@ class Cls:
         flags = {x.arg: d for x, d in zip(a.kwonlyargs, a.kw_defaults)}
         it_ok = False
         sel = None
+        if fn.decorator_list:
+            fail(fn, 'decorated __init__')
+        COSMETIC_SEEN.clear()
         for st in strip_doc(fn.body):
             if is_cosmetic(st):
                 continue
@@ -496,6 +670,7 @@ class Cls:
             fail(st, '__init__ statement not recognised')
         if not it_ok or sel is None:
             fail(fn, '__init__ must set self._it and the method selector')
+        check_cosmetic_names({'self'} | set(params) | set(flags))
         return sel
 
     def translate(self):
@@ -517,16 +692,33 @@ class Cls:
                 fail(fn, 'decorated method')
             if [x.arg for x in fn.args.args] != ['self'] or fn.args.vararg or fn.args.kwarg or fn.args.kwonlyargs:
                 fail(fn, 'method parameters')
+            COSMETIC_SEEN.clear()
             term = self.cbody(fn.body, f'to_aiter.{m}')
+            check_cosmetic_names({'self'})
             out.append((m, isinstance(fn, ast.AsyncFunctionDef), term))
             for sub in ast.walk(fn):
                 if isinstance(sub, ast.Attribute) and isinstance(sub.value, ast.Name) and sub.value.id == 'self' \
                         and sub.attr != '_it' and sub.attr not in seen and sub.attr not in todo:
                     todo.append(sub.attr)
+        # the other methods: __aiter__ must be the inherited one or `return self`; only __repr__/__str__ besides;
         # nobody else may touch the iterator or the selector
+        self.aiter_inherited = '__aiter__' not in self.methods
         for name, fn in self.methods.items():
             if name in seen or name == '__init__':
                 continue
+            if fn.decorator_list:
+                fail(fn, 'decorated method')
+            if name == '__aiter__':
+                body = [st for st in strip_doc(fn.body) if not isinstance(st, ast.Pass)]
+                if isinstance(fn, ast.AsyncFunctionDef) or [x.arg for x in fn.args.args] != ['self'] or len(body) != 1 \
+                        or not (isinstance(body[0], ast.Return) and is_name(body[0].value, 'self')):
+                    fail(fn, '__aiter__ must be `def __aiter__(self): return self`')
+                continue
+            if name not in ('__repr__', '__str__'):
+                fail(fn, f'method {name} of to_aiter is not translated')
+            for sub in ast.walk(fn):
+                if isinstance(sub, (ast.Await, ast.Yield, ast.YieldFrom)) or isinstance(fn, ast.AsyncFunctionDef):
+                    fail(fn, f'{name} must be a plain function')
             for sub in ast.walk(fn):
                 if isinstance(sub, ast.Attribute) and isinstance(sub.value, ast.Name) and sub.value.id == 'self' \
                         and sub.attr in ('_it', sel[0]):
@@ -538,7 +730,9 @@ def to_aiter(tree):
     cs = [n for n in tree.body if isinstance(n, ast.ClassDef) and n.name == 'to_aiter']
     if len(cs) != 1:
         raise Unsupported(f'{SRC}: expected exactly one class to_aiter')
-    return Cls(cs[0]).translate()
+    c = Cls(cs[0])
+    sel, meths = c.translate()
+    return sel, meths, c.aiter_inherited
 
 
 # --------------------------------------------------------------------------- output
@@ -552,9 +746,11 @@ def translate(repo: Path) -> str:
     if not p.exists():
         raise Unsupported(f'{p} not found')
     tree = ast.parse(p.read_text())
+    check_module(tree)
     merge, merge_vars = generator(tree, 'merge_aiters', merge_args)
     agen, agen_vars = generator(tree, 'agen_with_wait', agen_args)
-    sel, meths = to_aiter(tree)
+    sel, meths, aiter_inherited = to_aiter(tree)
+    ait = aiterable(tree)
     b = lambda x: 'true' if x else 'false'
     L = [
         '(** GENERATED by translate/aio_funs.py from ' + SRC,
@@ -580,6 +776,13 @@ def translate(repo: Path) -> str:
         'Definition to_aiter_methods : list meth := [',
         ';\n'.join(f'  mkMeth {q(m)} {b(a)}\n   {t}' for m, a, t in meths),
         '].',
+        '(** `async for` works: the only base is AsyncIterator[T] and __aiter__ is the inherited one (true) or',
+        '    `return self` (false) *)',
+        f'Definition to_aiter_aiter_inherited : bool := {b(aiter_inherited)}.',
+        '',
+        '(** def aiterable(iterable): return to_aiter(iterable, thread=...) -- the argument is passed unchanged;',
+        '    the value of `thread` (None: the default of to_aiter) *)',
+        f'Definition aiterable_thread : option bool := {"None" if ait is None else "Some " + b(ait)}.',
         '',
     ]
     return '\n'.join(L)
